@@ -64,6 +64,12 @@ for prop in props:
             import hashlib
             h = hashlib.sha1(scratch.encode()).hexdigest()[:10]
             shutil.rmtree(os.path.join(VERIF, "build", "shadow-" + h), ignore_errors=True)
+# persist what was observed, next to the expectations (read by tools/seeded_table.py for DESIGN.md)
+res_p = os.path.join(VERIF, "mutants", "results.json")
+allres = json.load(open(res_p)) if os.path.exists(res_p) else {}
+for r in results:
+    allres[f"{r[0]}/{r[1]}"] = {"expect": r[2], "observed": r[3].replace("  <-- MISMATCH", ""), "match": "MISMATCH" not in r[3] and "FAILED" not in r[3]}
+json.dump(allres, open(res_p, "w"), indent=1, sort_keys=True)
 print("\n== summary ==")
 bad = 0
 for r in results:
